@@ -14,6 +14,7 @@ fn main() {
     let cmd = args.get(1).map(|s| s.as_str()).unwrap_or("");
     engine::install_panic_hook();
     run::install_hooks();
+    gluon_sim::sched::install();
     let base: u64 = arg(&args, "--base")
         .or_else(|| std::env::var("VERIF_SEED").ok())
         .and_then(|s| s.parse().ok())
